@@ -478,7 +478,8 @@ func (in *Interp) ipStringValue(ip Slice) Value {
 			b16 = append(b16, e.(*Term))
 		}
 	default:
-		in.abort("unsupported: IP.String on symbolic address of length %d", len(ip))
+		// not an address: the text is only used for logs / metrics
+		return &SymStr{opaque: true}
 	}
 	return &SymStr{t: App("IPStr", SStr, b16...)}
 }
